@@ -178,12 +178,13 @@ def main(run: core.Run) -> None:
     else:
         variants = (('lf', True), ('lf', False), ('crlf', True), ('crlf', False), ('mixed', True), ('crcrlf', False), ('crcrlf', True), ('crlf-cut', True))
         items = [{'text': t} for t in docs.texts(docs.L_FULL, 3, variants=variants)]
-        items += [{'text': t} for t in docs.texts(docs.L_FULL, 4, nmin=4, variants=(('lf', True), ('mixed', False)))]
-        items += [{'text': t} for t in docs.texts(docs.L_EDIT, 5, nmin=5, variants=(('lf', True),))]
+        items += [{'text': t} for t in docs.texts(docs.L_FULL, 4, nmin=4, variants=(('lf', True), ('mixed', False), ('crlf', True), ('lf', False), ('crcrlf', True)))]
+        items += [{'text': t} for t in docs.texts(docs.L_EDIT, 5, nmin=5, variants=(('lf', True), ('crlf', False)))]
+        items += [{'text': t} for t in docs.texts(docs.L_EDIT, 6, nmin=6, variants=(('lf', True),))]
     run.rule = ('all line sequences up to n over the 21-kind line alphabet x EOL/final-newline variants, parsed as File '
                 'with auto_claim_comments on and off; every sub-model harvested from them parsed again as its own type; '
                 'non-trivial = distinct accepted non-empty texts (and distinct accepted (target, fragment) pairs)')
-    run.bounds.update({'line_alphabet': docs.L_FULL, 'max_lines': 3 if tier == 'quick' else '4 (full alphabet) / 5 (edit alphabet)',
+    run.bounds.update({'line_alphabet': docs.L_FULL, 'max_lines': 3 if tier == 'quick' else '4 (full alphabet, 5 EOL variants) / 5 and 6 (edit alphabet)',
                        'eol_variants': [f'{e}{"+final" if f else ""}' for e, f in variants]})
     run.assumptions = ['texts are drawn from a fixed line alphabet (one representative per lexer character class)',
                        'a fragment target may leave trivia (blanks, line breaks, unowned comments) outside the returned model']
